@@ -456,11 +456,11 @@ def sumset(index, rep):
     rets = [norm_src(r.value) for r in fn.body if isinstance(r, ast.Return)]
     rep.check(rets == [norm_src(asg[0].targets[0])], rule, "sum:returned", "the computed sum is not what is returned", loc=loc(INT, fn))
     gp = index.func(INT, "Interpreter.get_percent_people_fed")
-    unp = [s for s in walk_no_nested(gp) if isinstance(s, ast.Assign) and isinstance(s.value, ast.Call) and
-           norm_src(s.value) == "humans_fed_sum.get_min_nutrient()"]
     ret = [r for r in gp.body if isinstance(r, ast.Return)]
-    ok = len(unp) == 1 and isinstance(unp[0].targets[0], ast.Tuple) and ret and isinstance(ret[-1].value, (ast.List, ast.Tuple)) and \
-        norm_src(ret[-1].value.elts[0]) == norm_src(unp[0].targets[0].elts[1])
+    gp_param = gp.args.args[1].arg if len(gp.args.args) > 1 else "humans_fed_sum"
+    # slot 0 of what is returned reads (after copy propagation) `<the sum parameter>.get_min_nutrient()[1]`
+    ok = bool(ret) and isinstance(ret[-1].value, (ast.List, ast.Tuple)) and \
+        Inliner(gp).at(ret[-1]).src(ret[-1].value.elts[0]) == f"{gp_param}.get_min_nutrient()[1]"
     rep.check(ok, rule, "headline = min nutrient value of the sum", "percent fed is not the value returned by get_min_nutrient() of the sum",
               loc=loc(INT, gp))
     ap = index.func(INT, "Interpreter.assign_interpreted_properties")
@@ -568,10 +568,16 @@ def floor(index, rep, db):
     fh = index.func(OPT, "Optimizer.constrain_next_optimization_to_have_same_minimum_starvation")
     rets = [norm_src(r.value) for r in fh.body if isinstance(r, ast.Return)]
     rep.check(rets == ["(model, variables)"], rule, "floor-helper:returns-model", "the floored model is not returned", loc=loc(OPT, fh))
-    call = [s for s in ast.walk(fn) if isinstance(s, ast.Assign) and isinstance(s.value, ast.Call)
-            and dotted(s.value.func) == "self.constrain_next_optimization_to_have_same_minimum_starvation"]
-    ok = len(call) == 1 and isinstance(call[0].targets[0], ast.Tuple) and norm_src(call[0].targets[0].elts[0]) == "model" and \
-        norm_src(call[0].value.args[0]) == "model"
+    # what the first tie-breaking solve receives as its model is result 0 of a floor helper (on every branch), and the floor helper itself
+    # received this function's model parameter
+    later = [c for c in ast.walk(fn) if isinstance(c, ast.Call) and dotted(c.func) == "self." + need[1]]
+    model_p = fn.args.args[1].arg
+    inl_f = Inliner(fn)
+    ok = len(later) == 1 and bool(later[0].args)
+    if ok:
+        alts = inl_f.at(later[0]).alternatives(later[0].args[0]) or []
+        ok = bool(alts) and all(a_.startswith("self.constrain_next_optimization_to_have_same_") and a_.endswith("[0]") for a_ in alts) and \
+            any(a_.startswith(f"self.constrain_next_optimization_to_have_same_minimum_starvation({model_p}, ") for a_ in alts)
     rep.check(ok, rule, "floor-helper:threaded", "the floored model is not the one passed on to the later solves", loc=loc(OPT, fn))
     rep.require_min(rule, 8)
 
